@@ -68,6 +68,11 @@ claimed = {
   note="inmem SeriesCardinality is sketch-based and not held to the model; observations at Wait()-quiescent points; tsi1 lingering tag keys/values after series drops are listed known findings",
   technique=SIM + ": operation-level seeded schedule incl. index compactions, series-set reference model",
   ref="3 C14"),
+ "C16": dict(
+  text="Inside a simulated-clock bubble: the real httpd.Handler with authentication enabled, the real meta.QueryAuthorizer/WriteAuthorizer and a real meta.Client that follows the metadata through its real polling loop over the simulated network (stub meta server with long polling and plan-decided latency). A run is a history of 2-24 operations: user creation/removal, password change, grant/revoke per database, admin flag - each awaited until it reached the node or left in flight -, a password change placed by a yield point between the verification of a password and its entry into the credential cache, queries (1-3 statements out of 32 kinds, explicit and default database) and writes, with credentials as basic auth, query parameters, bearer token (valid, expired on the simulated clock, wrong secret) or none. Statements that pass are recorded by an executor behind the real query.Executor. Oracle: reference model of users/passwords/grants plus the harness' own table of what each statement kind needs; nothing may execute without authority (incl. before the first administrator exists and through the credential cache once a change has reached the node), and what the model authorises must execute.",
+  note="requests issued while a change affecting them is still in flight are not judged (counted as a probe); required privileges follow the documented model; DROP SERIES, DELETE and DROP RETENTION POLICY are only held to the lower bound WRITE (documentation and query language disagree); the meta server is a stub (no raft), statement execution is a recorder, so checks inside coordinator.StatementExecutor are not exercised; Flux, Prometheus and debug endpoints are not driven",
+  technique=SIM + ": seeded user/grant/credential histories against the real HTTP handler, authorizers and polling meta client on a simulated network and clock; window scheduling at a yield point; reference model",
+  ref="3 C16"),
  "C17": dict(
   text="1-3 real retention services tick every 30 fake minutes over one real meta.Data with shard groups placed around the expiry boundary (+-1ns), duration changes (incl. infinite), operator deletes, truncation, clock advances, orphan local shards and injected metadata/DeleteShard errors; safety oracle at every DeleteShardGroup/DeleteShard call, bounded liveness (2 passes to mark, 3 to drop) after faults stop.",
   note="TSDBStore and meta client are stubs; the write-time cut-off is checked by C08",
